@@ -18,6 +18,8 @@ package api //nolint:revive
 //         configuration #seed built by the loader; the columns are its LIVE secrets (hex, `-` empty, `~` nil)
 //         answer: what the four GET handlers serve at the password positions + canary scan + purity
 //         "G=… D=… L=… P=… Q=<ipp.page>=<items|->;… leaks=<n> pure=<0|1>"
+//   probe <cfg|cfgbig> <seed> <name,…>   config/paths/get/<name> for names that are NOT configuration keys
+//         answer "<name>=<status>[:<pp>/<rp>],… leaks=<n> pure=<0|1>"; model answer `-` (spec only)
 //   dump <wire|direct|directnc> <src> <reqline> <hostline> <k=v|v,…|-> <body> <secrets,…|->
 //         answer: hex of dumpRequest's output
 
@@ -257,7 +259,11 @@ func verifC07Fingerprint(c *conf.Conf) uint64 {
 
 // ---------- configurations ----------
 
-var verifC07PathNames = []string{"cam1", "cam2", "live/a", "~^x[0-9]+$", "all_others", "proxied", "cam3", "rec/b", "z9", "lobby"}
+var verifC07PathNames = []string{"cam1", "cam2", "live/a", "~^x[0-9]+$", "all_others", "proxied", "cam3", "rec/b", "~^cam_([0-9]+)$", "lobby"}
+
+// concrete path names that are not configuration keys: matched by the regexp entries above, by all_others if
+// present, or by nothing
+var verifC07ProbeNames = []string{"x7", "x123", "cam_1", "cam_42", "unknown9", "deep/er/name", "cam", "bad name"}
 
 func verifC07Pass(r *verifutil.Rand, tag string) string {
 	switch r.Intn(6) {
@@ -567,6 +573,53 @@ func verifC07Exec(op string) string {
 		return fmt.Sprintf("G=%s D=%s/%s L=%s P=%s Q=%s leaks=%d pure=%d", join(us), verifC07Field(d, "publishPass"), verifC07Field(d, "readPass"),
 			join(ls), join(ps), strings.Join(qs, ";"), leaks, pure)
 
+	case "probe":
+		// names that are NOT configuration keys (matched by a regexp entry / all_others, or by nothing):
+		// whatever is answered with 200 must be redacted
+		var seed uint64
+		fmt.Sscan(f[2], &seed)
+		c := verifC07Load(seed, f[1] == "cfgbig")
+		_, secrets := verifC07Secrets(c)
+		fp0 := verifC07Fingerprint(c)
+		a := &API{Parent: verifC07Parent{c}}
+		var out []string
+		leaks := 0
+		for _, hn := range strings.Split(f[3], ",") {
+			n := verifutil.UnHexS(hn)
+			if _, isKey := c.Paths[n]; isKey {
+				return "probe-name-is-a-key"
+			}
+			w := httptest.NewRecorder()
+			ctx, _ := gin.CreateTestContext(w)
+			ctx.Request = httptest.NewRequest(http.MethodGet, "/v3/x", nil)
+			ctx.Params = gin.Params{{Key: "name", Value: "/" + n}}
+			a.onConfigPathsGet(ctx)
+			if w.Code != http.StatusOK {
+				out = append(out, fmt.Sprintf("%s=%d", hn, w.Code))
+				continue
+			}
+			b := w.Body.Bytes()
+			var p map[string]any
+			if err := json.Unmarshal(b, &p); err != nil {
+				return "path-not-json"
+			}
+			out = append(out, fmt.Sprintf("%s=200:%s/%s", hn, verifC07Field(p, "publishPass"), verifC07Field(p, "readPass")))
+			for _, sec := range secrets {
+				if sec == "" {
+					continue
+				}
+				js, _ := json.Marshal(sec)
+				if bytes.Contains(b, []byte(sec)) || bytes.Contains(b, js[1:len(js)-1]) {
+					leaks++
+				}
+			}
+		}
+		pure := 1
+		if verifC07Fingerprint(c) != fp0 {
+			pure = 0
+		}
+		return fmt.Sprintf("%s leaks=%d pure=%d", strings.Join(out, ","), leaks, pure)
+
 	case "dump":
 		req, err := verifC07BuildReq(f)
 		if err != nil {
@@ -593,10 +646,21 @@ type verifC07Req struct {
 
 var verifC07Canary int
 
-// a unique value per planted credential
+// a unique value per planted credential; one in six is long (around a 1 KiB logging cap, and 4 KiB), made of
+// numbered cells so that every window of it is unique
 func verifC07Secret(r *verifutil.Rand) string {
 	verifC07Canary++
-	return fmt.Sprintf("%sCANARY%dq%d", r.Pick("Bearer ", "Basic ", "sid=", "Digest ", "", "user:"), verifC07Canary, r.Intn(1000000))
+	v := fmt.Sprintf("%sCANARY%dq%d", r.Pick("Bearer ", "Basic ", "sid=", "Digest ", "", "user:"), verifC07Canary, r.Intn(1000000))
+	if r.Chance(1, 6) {
+		n := []int{1023, 1024, 1025, 4096, 2000}[r.Intn(5)]
+		var sb strings.Builder
+		sb.WriteString(v)
+		for i := 0; sb.Len() < n; i++ {
+			fmt.Fprintf(&sb, ".c%dx%05d", verifC07Canary, i)
+		}
+		v = sb.String()[:n]
+	}
+	return v
 }
 
 func verifC07GenReq(r *verifutil.Rand) *verifC07Req {
@@ -768,18 +832,28 @@ func verifC07BuildReq(f []string) (*http.Request, error) {
 	return req, nil
 }
 
+func verifC07ProbeOp(kind string, seed uint64) string {
+	var hs []string
+	for _, n := range verifC07ProbeNames {
+		hs = append(hs, verifutil.HexS(n))
+	}
+	return fmt.Sprintf("probe %s %d %s", kind, seed, strings.Join(hs, ","))
+}
+
 func verifC07Gen(r *verifutil.Rand, i int, thorough bool) []string {
 	ops := []string{verifC07ResetLine()}
 	if i%2 == 0 {
 		if thorough && i%20 == 0 {
 			seed := r.U64() >> 1
 			cols, _ := verifC07Secrets(verifC07Load(seed, true))
-			return append(ops, fmt.Sprintf("cfgbig %d %s", seed, cols))
+			ops = append(ops, fmt.Sprintf("cfgbig %d %s", seed, cols))
+			return append(ops, verifC07ProbeOp("cfgbig", seed))
 		}
 		for j := 0; j < 3; j++ {
 			seed := r.U64() >> 1
 			cols, _ := verifC07Secrets(verifC07Load(seed, false))
 			ops = append(ops, fmt.Sprintf("cfg %d %s", seed, cols))
+			ops = append(ops, verifC07ProbeOp("cfg", seed))
 		}
 		return ops
 	}
@@ -804,6 +878,11 @@ func TestVerifC07(t *testing.T) {
 					k = "redacted"
 				}
 				return f[0] + "/" + k
+			case "probe":
+				if strings.Contains(impl, "=200:") {
+					return "probe/some-200"
+				}
+				return "probe/all-404"
 			case "dump":
 				k := "no-secret-header"
 				if f[len(f)-1] != "-" {
